@@ -182,10 +182,13 @@ fn show_events() -> String {
     s
 }
 
-fn show_records(c: &TrkCtx, dets: &[DetIn], recs: &[SortTrack]) -> String {
+/// `preds`: for the tracks just reported, the last entry of the stored history of predicted boxes (when the store could be
+/// read): the record's `predicted_bbox` must echo it bit for bit, as `observed_bbox` echoes the detection
+fn show_records(c: &TrkCtx, dets: &[DetIn], recs: &[SortTrack], preds: &HashMap<u64, Universal2DBox>) -> String {
     let mut s = format!("R {}", recs.len());
     for (i, r) in recs.iter().enumerate() {
-        let e = dets.get(i).map(|d| echo_ok(&d.bbox, &r.observed_bbox)).unwrap_or(false);
+        let pe = preds.get(&r.id).map(|p| echo_ok(p, &r.predicted_bbox)).unwrap_or(true);
+        let e = pe && dets.get(i).map(|d| echo_ok(&d.bbox, &r.observed_bbox)).unwrap_or(false);
         s.push_str(&format!(
             " {} {} {} {} {} {} {} {}",
             r.id,
@@ -275,6 +278,26 @@ macro_rules! dump_store {
         let w = $tr.wasted_shard_stats();
         out.push_str(&format!(" A {} X {}", nat_list(&a), nat_list(&w)));
         out
+    }};
+}
+
+
+/// last stored predicted box of each of the given tracks (live store)
+macro_rules! preds_of {
+    ($c:expr, $tr:expr, $recs:expr) => {{
+        let mut m: HashMap<u64, Universal2DBox> = HashMap::new();
+        for k in 0..$c.shards {
+            let st = $tr.get_main_store();
+            let g = st.get_store(k);
+            for r in $recs.iter() {
+                if let Some(t) = g.get(&r.id) {
+                    if let Some(b) = t.get_attributes().predicted_boxes.back() {
+                        m.insert(r.id, b.clone());
+                    }
+                }
+            }
+        }
+        m
     }};
 }
 
@@ -525,7 +548,7 @@ fn show_pipe(c: &mut TrkCtx, batches: &[Vec<(u64, Vec<DetIn>)>], all: Vec<(usize
         for (scene, recs) in got {
             let dets = batches[k].iter().find(|e| e.0 == scene).map(|e| e.1.clone()).unwrap_or_default();
             log_records(c, scene, &recs);
-            out.push_str(&format!(" S {} {}", scene, show_records(c, &dets, &recs)));
+            out.push_str(&format!(" S {} {}", scene, show_records(c, &dets, &recs, &HashMap::new())));
         }
     }
     out
@@ -697,7 +720,8 @@ pub fn exec(ctx: &mut Ctx, t: &mut Toks) -> String {
                     let input: Vec<(Universal2DBox, Option<i64>)> = dets.iter().map(|d| (d.bbox.clone(), d.custom)).collect();
                     let recs = s.predict_with_scene(*scene, &input);
                     log_records(c, *scene, &recs);
-                    out.push_str(&format!(" S {} {}", scene, show_records(c, dets, &recs)));
+                    let preds = preds_of!(c, s, recs);
+                    out.push_str(&format!(" S {} {}", scene, show_records(c, dets, &recs, &preds)));
                     out.push_str(&dump_store!(c, s, dump_sort_track));
                 }
                 Trk::Visual(s) => {
@@ -706,7 +730,8 @@ pub fn exec(ctx: &mut Ctx, t: &mut Toks) -> String {
                     let input: Vec<VisualSortObservation> = dets.iter().map(vobs).collect();
                     let recs = s.predict_with_scene(*scene, &input);
                     log_records(c, *scene, &recs);
-                    out.push_str(&format!(" S {} {}", scene, show_records(c, dets, &recs)));
+                    let preds = preds_of!(c, s, recs);
+                    out.push_str(&format!(" S {} {}", scene, show_records(c, dets, &recs, &preds)));
                     out.push_str(&dump_store!(c, s, dump_vis_track));
                 }
                 Trk::BatchSort(s) => {
@@ -738,7 +763,8 @@ pub fn exec(ctx: &mut Ctx, t: &mut Toks) -> String {
                             for (scene, recs) in got {
                                 let dets = &scenes.iter().find(|e| e.0 == scene).map(|e| e.1.clone()).unwrap_or_default();
                                 log_records(c, scene, &recs);
-                                out.push_str(&format!(" S {} {}", scene, show_records(c, dets, &recs)));
+                                let preds = if let Trk::BatchSort(s) = &tr { preds_of!(c, s, recs) } else { HashMap::new() };
+                                out.push_str(&format!(" S {} {}", scene, show_records(c, dets, &recs, &preds)));
                             }
                             if let Trk::BatchSort(s) = &tr {
                                 out.push_str(&dump_store!(c, s, dump_sort_track));
@@ -775,7 +801,8 @@ pub fn exec(ctx: &mut Ctx, t: &mut Toks) -> String {
                             for (scene, recs) in got {
                                 let dets = &scenes.iter().find(|e| e.0 == scene).map(|e| e.1.clone()).unwrap_or_default();
                                 log_records(c, scene, &recs);
-                                out.push_str(&format!(" S {} {}", scene, show_records(c, dets, &recs)));
+                                let preds = if let Trk::BatchVisual(s) = &tr { preds_of!(c, s, recs) } else { HashMap::new() };
+                                out.push_str(&format!(" S {} {}", scene, show_records(c, dets, &recs, &preds)));
                             }
                             if let Trk::BatchVisual(s) = &tr {
                                 out.push_str(&dump_store!(c, s, dump_vis_track));
